@@ -218,6 +218,9 @@ class Recorder:
             i = len(self.oid) + 1
             self.oid[id(order)] = i
             order._v_ord = i
+            # keep the object alive: jesse drops cancelled orders from its stores when a trade closes, and a
+            # recycled id() would give a later order the ordinal of a dead one
+            self.__dict__.setdefault('_alive', []).append(order)
         return i
 
     def now_min(self):
